@@ -41,11 +41,13 @@ pub struct Unit {
     pub input_rels: Vec<usize>,
     /// relations compared with the reference (BYODS relations have no readable vector)
     pub observe: Vec<usize>,
+    /// per-relation column domain sizes for input facts (default: prog.n for every column)
+    pub domains: std::collections::HashMap<usize, Vec<i32>>,
 }
 impl Unit {
     pub fn simple(p: Prog, tag: &str) -> Unit {
         let all: Vec<usize> = (0..p.rels.len()).filter(|i| p.rels[*i].ds.is_none()).collect();
-        Unit { variants: vec![Variant::plain(&p)], input_rels: all.clone(), observe: all, prog: p, tag: tag.into() }
+        Unit { variants: vec![Variant::plain(&p)], input_rels: all.clone(), observe: all, prog: p, tag: tag.into(), domains: Default::default() }
     }
 }
 
@@ -482,6 +484,136 @@ pub fn f_timeout(thorough: bool) -> Vec<Unit> {
     out
 }
 
+// ------------------------------------------------------------------------------------------ F-ds
+fn fact(rel: usize, consts: Vec<i32>) -> Rule { rule(vec![head(rel, consts.into_iter().map(Expr::Const).collect())], vec![]) }
+fn never() -> BodyItem { BodyItem::Cond(Cond::Lt(Expr::Const(1), Expr::Const(0))) }
+
+/// BYODS relations: a clocked feeder decides in which iteration of the recursive stratum each pair
+/// arrives (the input relation `sched(i, [k,] a, b)` is literally the insertion history); one reader
+/// rule per access pattern, placed in a later stratum or inside the recursive stratum.
+pub fn f_ds(thorough: bool) -> Vec<Unit> {
+    let n = 3;
+    let t_max = 2;
+    let mut units = vec![];
+    for ds in [Ds::Eqrel, Ds::Trrel, Ds::TrrelUf] {
+        let dsname = match ds { Ds::Eqrel => "eqrel", Ds::Trrel => "trrel", Ds::TrrelUf => "trrel_uf" };
+        for ternary in [false, true] {
+            let k = if ternary { 1 } else { 0 };
+            // feeders: clocked (pairs arrive over several iterations), at-once (non looping stratum),
+            // two-strata (time 0 in a non looping stratum, later times clocked), self-feeding
+            for feeder in ["clocked", "at-once", "two-strata", "self-feeding"] {
+                if ternary && feeder == "self-feeding" && !thorough { continue; }
+                for inside in [false, true] {
+                    if feeder == "at-once" && inside { continue; }
+                    // relation table
+                    let mut rels = vec![rel("step", 1), rel("sched", 3 + k), RelDecl { name: "r".into(), arity: 2 + k, lat: None, ds: Some(ds.clone()) }, rel("dom", 1)];
+                    const STEP: usize = 0; const SCHED: usize = 1; const R: usize = 2; const DOM: usize = 3;
+                    let mut rules = vec![];
+                    for d in 0..n { rules.push(fact(DOM, vec![d])); }
+                    // variables: 0 = i (time), 1 = key, 2 = a, 3 = b
+                    let kv: Vec<Arg> = if ternary { vec![v(1)] } else { vec![] };
+                    let ke: Vec<Expr> = if ternary { vec![ev(1)] } else { vec![] };
+                    let mut sched_args = vec![v(0)]; sched_args.extend(kv.clone()); sched_args.push(v(2)); sched_args.push(v(3));
+                    let mut r_head = ke.clone(); r_head.push(ev(2)); r_head.push(ev(3));
+                    let clock = |rules: &mut Vec<Rule>| {
+                        rules.push(fact(STEP, vec![0]));
+                        rules.push(rule(vec![head(STEP, vec![succ(ev(0))])], vec![catom(STEP, vec![v(0)], vec![Cond::Lt(ev(0), Expr::Const(t_max))])]));
+                        // never-firing back edge: ties r into the clock's stratum
+                        let mut ra = kv.clone(); ra.push(v(2)); ra.push(v(3));
+                        rules.push(rule(vec![head(STEP, vec![ev(2)])], vec![atom(R, ra), never()]));
+                    };
+                    match feeder {
+                        "clocked" | "self-feeding" => {
+                            clock(&mut rules);
+                            rules.push(rule(vec![head(R, r_head.clone())], vec![atom(STEP, vec![v(0)]), atom(SCHED, sched_args.clone())]));
+                        }
+                        "at-once" => {
+                            let mut sa = vec![Arg::Wild]; sa.extend(kv.clone()); sa.push(v(2)); sa.push(v(3));
+                            rules.push(rule(vec![head(R, r_head.clone())], vec![atom(SCHED, sa)]));
+                        }
+                        _ => {
+                            let mut sa = vec![c(0)]; sa.extend(kv.clone()); sa.push(v(2)); sa.push(v(3));
+                            rules.push(rule(vec![head(R, r_head.clone())], vec![atom(SCHED, sa)]));
+                            clock(&mut rules);
+                            rules.push(rule(vec![head(R, r_head.clone())], vec![catom(STEP, vec![v(0)], vec![Cond::Lt(Expr::Const(0), ev(0))]), atom(SCHED, sched_args.clone())]));
+                        }
+                    }
+                    if feeder == "self-feeding" {
+                        // pairs derived from the relation itself: r(a, c) <-- r(a, b), sched(_, b, c)
+                        let mut ra = kv.clone(); ra.push(v(2)); ra.push(v(3));
+                        let mut sa = vec![Arg::Wild]; sa.extend(kv.clone()); sa.push(v(3)); sa.push(v(4));
+                        let mut h = ke.clone(); h.push(ev(2)); h.push(ev(4));
+                        rules.push(rule(vec![head(R, h)], vec![atom(R, ra), atom(SCHED, sa)]));
+                    }
+                    // readers: one output relation per access pattern
+                    let cols = 2 + k;
+                    let mut readers: Vec<(String, Vec<BodyItem>, Vec<Expr>)> = vec![];
+                    // every subset of bound columns, bound through preceding dom clauses
+                    for mask in 0..(1u32 << cols) {
+                        let mut body = vec![];
+                        for cidx in 0..cols { if mask & (1 << cidx) != 0 { body.push(atom(DOM, vec![v(10 + cidx as Var)])); } }
+                        body.push(atom(R, (0..cols).map(|cidx| v(10 + cidx as Var)).collect()));
+                        readers.push((format!("bound{:03b}", mask), body, (0..cols).map(|cidx| ev(10 + cidx as Var)).collect()));
+                    }
+                    // relation first, binder second (r is the first clause of a simple join)
+                    {
+                        let mut body = vec![atom(R, (0..cols).map(|cidx| v(10 + cidx as Var)).collect())];
+                        body.push(atom(DOM, vec![v(10 + cols as Var - 1)]));
+                        readers.push(("first-of-join".into(), body, (0..cols).map(|cidx| ev(10 + cidx as Var)).collect()));
+                    }
+                    // constants and a repeated variable
+                    {
+                        let mut a1: Vec<Arg> = (0..cols).map(|cidx| v(10 + cidx as Var)).collect(); a1[k] = c(0);
+                        let mut h1: Vec<Expr> = (0..cols).map(|cidx| ev(10 + cidx as Var)).collect(); h1[k] = Expr::Const(0);
+                        readers.push(("const-first".into(), vec![atom(R, a1)], h1));
+                        let mut a2: Vec<Arg> = (0..cols).map(|cidx| v(10 + cidx as Var)).collect(); a2[k + 1] = c(1);
+                        let mut h2: Vec<Expr> = (0..cols).map(|cidx| ev(10 + cidx as Var)).collect(); h2[k + 1] = Expr::Const(1);
+                        readers.push(("const-second".into(), vec![atom(R, a2)], h2));
+                        let mut a3: Vec<Arg> = (0..cols).map(|cidx| v(10 + cidx as Var)).collect(); a3[k + 1] = v(10 + k as Var);
+                        let mut h3: Vec<Expr> = (0..cols).map(|cidx| ev(10 + cidx as Var)).collect(); h3[k + 1] = ev(10 + k as Var);
+                        readers.push(("repeated-var".into(), vec![atom(R, a3)], h3));
+                    }
+                    // self join r(x,y), r(y,z)
+                    {
+                        let mut a1: Vec<Arg> = kv.iter().map(|_| v(10)).collect(); a1.push(v(11)); a1.push(v(12));
+                        let mut a2: Vec<Arg> = kv.iter().map(|_| v(10)).collect(); a2.push(v(12)); a2.push(v(13));
+                        let mut h: Vec<Expr> = kv.iter().map(|_| ev(10)).collect(); h.push(ev(11)); h.push(ev(13));
+                        readers.push(("self-join".into(), vec![atom(R, a1), atom(R, a2)], h));
+                    }
+                    // one program per reader for the ternary form (a missing index arm must not take the
+                    // other access patterns down with it), one program with all readers for the binary form
+                    let groups: Vec<Vec<(String, Vec<BodyItem>, Vec<Expr>)>> = if ternary { readers.into_iter().map(|r| vec![r]).collect() } else { vec![readers] };
+                    for group in groups {
+                        let mut rels2 = rels.clone();
+                        let mut rules2 = rules.clone();
+                        let mut names = vec![];
+                        for (name, body, h) in &group {
+                            let oi = rels2.len();
+                            rels2.push(rel(&format!("o{}", oi - 4), cols));
+                            rules2.push(rule(vec![head(oi, h.clone())], body.clone()));
+                            if inside {
+                                // back edge: the reader's output feeds the clock stratum (never fires)
+                                rules2.push(rule(vec![head(STEP, vec![ev(20)])], vec![atom(oi, (0..cols).map(|cidx| v(20 + cidx as Var)).collect()), never()]));
+                            }
+                            names.push(name.clone());
+                        }
+                        let p = Prog { rels: rels2, rules: rules2, macros: vec![], n };
+                        let tag = format!("ds-{}-{}-{}-{}{}", dsname, if ternary { "ternary" } else { "binary" }, feeder, if inside { "readers-in-recursive-stratum" } else { "readers-in-later-stratum" },
+                            if ternary { format!("-{}", names[0]) } else { String::new() });
+                        let mut u = Unit::simple(p, &tag);
+                        u.input_rels = vec![SCHED];
+                        let mut dom = vec![t_max + 1]; if ternary { dom.push(2); } dom.push(n); dom.push(n);
+                        u.domains.insert(SCHED, dom);
+                        units.push(u);
+                    }
+                    let _ = &mut rels;
+                }
+            }
+        }
+    }
+    units
+}
+
 pub fn units(family: &str, thorough: bool) -> Vec<Unit> {
     match family {
         "shape" => f_shape(thorough),
@@ -489,6 +621,7 @@ pub fn units(family: &str, thorough: bool) -> Vec<Unit> {
         "lat" => f_lat(thorough),
         "agg" => f_agg(thorough),
         "timeout" => f_timeout(thorough),
+        "ds" => f_ds(thorough),
         _ => panic!("unknown family {}", family),
     }
 }
